@@ -18,7 +18,7 @@ RULE = (
     "assembly of the half-space closed form (pad, retain wavenumbers, exp(-lambda h), 1/(Kz lambda), linear mean profile, re-centring "
     "/ point reflection by their stated meaning, crop). Part B (kind=B): constant profiles, uniform or logarithmic vertical grids "
     "with n, 2n, 4n layers (n multiple of 4, 8..48) chosen so that max|T|dz^2/Kz <= 0.5 on the coarsest grid and shooting growth "
-    "<= exp(10); numerical vs analytic error E (max-norm / field max, the larger of the conc and flux errors) must shrink by >= 5.5 per "
+    "<= exp(10); numerical vs analytic error E (max-norm over the whole column on the coarsest grid's heights / field max, the larger of the conc and flux errors) must shrink by >= 5.5 per "
     "halving wherever E(coarser) > 1e-7. Non-trivial: A = source with >= 2 non-zero cells; B = at least one asserted halving; "
     "distinct = canonical JSON."
 )
@@ -214,7 +214,10 @@ def _check_b(case):
     for n in (n0, 2 * n0, 4 * n0):
         z = _zgrid(case, n)
         prof = tuple(np.full(n + 1, case[k]) for k in ("u", "v", "Kx", "Ky", "Kz"))
-        lvl = int(round(case["frac"] * n))
+        # the error of the whole column, on the heights of the coarsest grid (present in every refinement): the error
+        # at a single height can pass through a zero of the error function (ratio 5.05 at one level next to 8.9 at the
+        # others, seen once in 40 000 thorough cases)
+        lvl = [i * (n // n0) for i in range(n0 + 1)]
         kw = dict(modes=(nx + nx % 2, ny + ny % 2), halo=0.0, precision="double")
         _, cn, fn = sut.S(q0, z, prof, dom, lvl, **kw)
         _, ca, fa = sut.S(q0, z, prof, dom, lvl, analytic=True, **kw)
